@@ -54,6 +54,13 @@ def generate(tier, seed):
             maxd = 10 if k < L else [10, 1, 2, 3][n_ex % 4]
             cases.append(case(maxd, list(h), qs))
             n_ex += 1
+    # every history of length 3 over one domain and non-reflexive pairs (re-adds of live links,
+    # double deletes, add-add-delete ...): 13^3 histories
+    al1 = [("C",)] + [(k, a, b, None) for k in "AD" for a in NAMES for b in NAMES if a != b]
+    q1 = all_queries(NAMES, [None])
+    for h in itertools.product(al1, repeat=3):
+        cases.append(case(10, list(h), q1))
+        n_ex += 1
     # single-domain deeper exhaustive part: all link sets over 4 names added in a random order
     # (these reach the depth-counter logic: limits 0..4)
     names4 = ["a", "b", "c", "d"]
